@@ -262,7 +262,14 @@ class TypeDeclarationStatement(Statement):
         if isinstance(self.parent, Function) and self.parent.name in self.entity_decls:
             assert self.parent.typedecl is None, repr(self.parent.typedecl)
             self.parent.typedecl = self
-            self.ignore = True
+            others = [
+                entity for entity in self.entity_decls if entity != self.parent.name
+            ]
+            if others:
+                # The statement also declares other entities: it stays, for them.
+                self.entity_decls = others
+            else:
+                self.ignore = True
         if isinstance(self, Type):
             self.name = self.selector[1].lower()
             assert is_name(self.name), repr(self.name)
